@@ -1468,3 +1468,102 @@ Proof.
   - split; [|reflexivity]. intros _ x Hx. rewrite forallb_forall in R. specialize (R x Hx).
     unfold nonnull in R. destruct (rnul x); [discriminate|reflexivity].
 Qed.
+
+(* ------------------------------------------------------------------------------------------ *)
+(** * A manager returned unchanged by cached_deriv answered from its cache *)
+
+Definition cache_len_le (m m1 : mgr) : Prop := (length (cache m) <= length (cache m1))%nat.
+
+Lemma dl_fix_len c l : Forall (fun x => forall m cid m1 r, cached_deriv x m cid = Some (m1, r) -> cache_len_le m m1) l ->
+  forall m m1 ds, dl_fix c l m = Some (m1, ds) -> cache_len_le m m1.
+Proof.
+  unfold cache_len_le. induction 1 as [|x t Px _ IH]; intros m m1 ds H; cbn [dl_fix] in H.
+  - inversion H; subst. lia.
+  - destruct (coc x c) as [kx|]; cbn [bind] in H; [|discriminate].
+    destruct (cached_deriv x m kx) as [[m2 d]|] eqn:E; cbn [bind] in H; [|discriminate].
+    match type of H with bind ?y _ = _ => destruct y as [[m3 ds3]|] eqn:E3 end; cbn [bind] in H; [|discriminate].
+    inversion H; subst. apply Px in E. apply IH in E3. lia.
+Qed.
+
+Lemma cached_deriv_len e : forall m cid m1 r, cached_deriv e m cid = Some (m1, r) ->
+  cache_len_le m m1 /\ (cache_lookup (rid e) cid (cache m) = None -> (length (cache m) < length (cache m1))%nat).
+Proof.
+  induction e as [i n cl k IH] using re_kids_ind. intros m cid m1 r H.
+  assert (K : Forall (fun x => forall m cid m1 r, cached_deriv x m cid = Some (m1, r) -> cache_len_le m m1) (kids k)).
+  { rewrite Forall_forall in *. intros x Hx m0 c0 m2 r0 H0. apply (IH x Hx m0 c0 m2 r0 H0). }
+  clear IH. rewrite cached_deriv_unfold in H. cbn [rid rcls rnode] in H |- *.
+  destruct (cache_lookup i cid (cache m)) as [r0|] eqn:Hl.
+  { inversion H; subst. split; [unfold cache_len_le; lia|discriminate]. }
+  destruct (ppick cl cid) as [c|]; cbn [bind] in H; [|discriminate].
+  match type of H with bind ?x _ = _ => destruct x as [[m' r']|] eqn:E end; cbn [bind] in H; [|discriminate].
+  inversion H; subst. clear H.
+  assert (B : cache_len_le m m').
+  { unfold cache_len_le in *. destruct k as [| |s0|x y|x rg|x|l|l]; cbn [kids] in K.
+    - inversion E; subst. lia.
+    - inversion E; subst. lia.
+    - inversion E; subst. lia.
+    - inversion K as [|? ? Px K2]; subst. inversion K2 as [|? ? Py _]; subst.
+      destruct (coc x c) as [k1|]; cbn [bind] in E; [|discriminate].
+      destruct (cached_deriv x m k1) as [[ma d1]|] eqn:E1; cbn [bind] in E; [|discriminate].
+      destruct (concat d1 ma y) as [[mb d1']|] eqn:E2; cbn [bind] in E; [|discriminate].
+      apply Px in E1. apply concat_cache in E2.
+      destruct (rnul x).
+      + destruct (coc y c) as [k2|]; cbn [bind] in E; [|discriminate].
+        destruct (cached_deriv y mb k2) as [[mc d2]|] eqn:E3; cbn [bind] in E; [|discriminate].
+        apply Py in E3. apply union_cache in E. rewrite E. rewrite E2 in E3. lia.
+      + inversion E; subst. rewrite E2. exact E1.
+    - inversion K as [|? ? Px _]; subst.
+      destruct (coc x c) as [k1|]; cbn [bind] in E; [|discriminate].
+      destruct (cached_deriv x m k1) as [[ma d1]|] eqn:E1; cbn [bind] in E; [|discriminate].
+      destruct (mk_loop ma x (lr_shift rg)) as [[mb e2]|] eqn:E2; cbn [bind] in E; [|discriminate].
+      apply Px in E1. apply mk_loop_cache in E2. apply concat_cache in E. rewrite E, E2. exact E1.
+    - inversion K as [|? ? Px _]; subst.
+      destruct (coc x c) as [k1|]; cbn [bind] in E; [|discriminate].
+      destruct (cached_deriv x m k1) as [[ma d1]|] eqn:E1; cbn [bind] in E; [|discriminate].
+      destruct (complement ma d1); cbn [bind] in E; [|discriminate]. inversion E; subst.
+      apply Px in E1. exact E1.
+    - destruct (dl_fix c l m) as [[ma ds]|] eqn:E1; cbn [bind] in E; [|discriminate].
+      apply (dl_fix_len c l K) in E1. apply union_list_cache in E. rewrite E. exact E1.
+    - destruct (dl_fix c l m) as [[ma ds]|] eqn:E1; cbn [bind] in E; [|discriminate].
+      apply (dl_fix_len c l K) in E1. apply inter_list_cache in E. rewrite E. exact E1. }
+  unfold cache_len_le in *. unfold cache_insert, set_cache. cbn [cache length]. split; [lia|intros _; lia].
+Qed.
+
+Theorem cderiv_iff m r cid d : cderiv m r cid d <-> cached_deriv r m cid = Some (m, d).
+Proof.
+  split; [apply cderiv_cached|]. intros H. unfold cderiv.
+  destruct (cache_lookup (rid r) cid (cache m)) as [r0|] eqn:Hl.
+  - rewrite (cached_deriv_hit r m cid r0 Hl) in H. inversion H; subst. reflexivity.
+  - apply cached_deriv_len in H. destruct H as [_ H]. specialize (H Hl). lia.
+Qed.
+
+(* ------------------------------------------------------------------------------------------ *)
+(** * Discharging the premises: terms owned by a manager that numbers children before parents *)
+
+Lemma ids_desc_intro i n c k :
+  Forall (fun x => rid x < i /\ ids_desc x) (kids k) -> ids_desc (Node i n c k).
+Proof.
+  unfold ids_desc.
+  assert (G : forall l, Forall (fun x => rid x < i /\ ids_descb x = true) l ->
+           (fix all (l : list re) : bool :=
+              match l with [] => true | x :: t => ((rid x <? i) && ids_descb x) && all t end) l = true).
+  { induction 1 as [|x t [H1 H2] _ IH]; [reflexivity|]. rewrite IH, H2. apply N.ltb_lt in H1. rewrite H1. reflexivity. }
+  destruct k as [| |s0|x y|x rg|x|l|l]; cbn [ids_descb kids]; intros H;
+    first [exact (G [x; y] H) | exact (G [x] H) | exact (G l H) | reflexivity].
+Qed.
+
+(* shape of ManagerProofs.wf_child with O := owned m *)
+Theorem ids_desc_of_child_lt (O : re -> Prop) :
+  (forall e c, O e -> In c (kids (rnode e)) -> O c /\ rid c < rid e) -> forall e, O e -> ids_desc e.
+Proof.
+  intros HO. induction e as [i n c k IH] using re_kids_ind. intros He. apply ids_desc_intro.
+  rewrite Forall_forall in *. intros x Hx. destruct (HO _ x He Hx) as [Ox Lx]. split; [exact Lx|auto].
+Qed.
+
+(* boolean forms of the premises, for examples and generators *)
+Lemma ids_desc_all_b l : forallb ids_descb l = true -> Forall ids_desc l.
+Proof. rewrite forallb_forall, Forall_forall. auto. Qed.
+Lemma cls_ok_b l : forallb (fun r => pwfb (rcls r)) l = true -> cls_ok l.
+Proof.
+  unfold cls_ok. rewrite forallb_forall, Forall_forall. intros H r Hr. apply pwfb_iff. apply H. exact Hr.
+Qed.
